@@ -368,35 +368,40 @@ func inductionFacts(z *zbCtx, fn *ssa.Function, pa *Path, all []*Path) []indFact
 			} else {
 				out = append(out, indFact{init.add(phi, -1), "induction: " + name + " only decreases from its initial value"})
 			}
-			// guard-derived bound: every back path carries `phi < B` (inc) or `!(phi < L)` (dec)
+			// guard-derived bound: every back path carries a guard that bounds the
+			// counter before it is stepped:
+			//   inc:  phi < B  (or phi+1 < B)  ⇒ header invariant phi ≤ B
+			//         !(B < phi)               ⇒ header invariant phi ≤ B+1
+			//   dec:  !(phi < L)               ⇒ header invariant phi ≥ L-1
+			//         C < phi                  ⇒ header invariant phi ≥ C
 			var bound *Term
+			slack := int64(0)
 			boundOK := len(backs) > 0
 			for _, q := range backs {
 				found := false
+				take := func(b *Term, k int64) {
+					if bound == nil || (bound.Key() == b.Key() && slack == k) {
+						bound, slack, found = b, k, true
+					}
+				}
 				for _, a := range q.Atoms[q.PreAt:] {
 					t := a.T
 					if t.Op != "bin" || t.Name != "<" {
 						continue
 					}
-					if dir == 1 && a.Pos && t.Args[0].Key() == phiKey {
-						if bound == nil || bound.Key() == t.Args[1].Key() {
-							bound = t.Args[1]
-							found = true
-						}
+					l, r := t.Args[0], t.Args[1]
+					isPhi1 := func(x *Term) bool {
+						return x.Op == "bin" && x.Name == "+" && x.Args[0].Key() == phiKey && x.Args[1].IsConst("1")
 					}
-					if dir == 1 && a.Pos && t.Args[0].Op == "bin" && t.Args[0].Name == "+" && t.Args[0].Args[0].Key() == phiKey && t.Args[0].Args[1].IsConst("1") {
-						// guard on phi+1 (range loops)
-						b := t.Args[1]
-						if bound == nil || bound.Key() == b.Key() {
-							bound = b
-							found = true
-						}
-					}
-					if dir == -1 && !a.Pos && t.Args[0].Key() == phiKey {
-						if bound == nil || bound.Key() == t.Args[1].Key() {
-							bound = t.Args[1]
-							found = true
-						}
+					switch {
+					case dir == 1 && a.Pos && (l.Key() == phiKey || isPhi1(l)):
+						take(r, 0)
+					case dir == 1 && !a.Pos && r.Key() == phiKey:
+						take(l, 1)
+					case dir == -1 && !a.Pos && l.Key() == phiKey:
+						take(r, 1)
+					case dir == -1 && a.Pos && r.Key() == phiKey:
+						take(l, 0)
 					}
 				}
 				if !found {
@@ -427,9 +432,9 @@ func inductionFacts(z *zbCtx, fn *ssa.Function, pa *Path, all []*Path) []indFact
 				i0 := ze.lin(inits[0])
 				var goal lin
 				if dir == 1 {
-					goal = b.add(i0, -1) // init ≤ B
+					goal = b.add(i0, -1).add(linConst(slack), 1) // init ≤ B + slack
 				} else {
-					goal = i0.add(b, -1).add(linConst(1), 1) // init ≥ L-1
+					goal = i0.add(b, -1).add(linConst(slack), 1) // init ≥ L − slack
 				}
 				if !ze.proveCases(goal) {
 					initOK = false
@@ -440,9 +445,9 @@ func inductionFacts(z *zbCtx, fn *ssa.Function, pa *Path, all []*Path) []indFact
 			}
 			b := z.lin(bound)
 			if dir == 1 {
-				out = append(out, indFact{b.add(phi, -1), "induction: " + name + " ≤ loop bound at the header"})
+				out = append(out, indFact{b.add(phi, -1).add(linConst(slack), 1), "induction: " + name + " ≤ loop bound at the header"})
 			} else {
-				out = append(out, indFact{phi.add(b, -1).add(linConst(1), 1), "induction: " + name + " ≥ lower bound − 1 at the header"})
+				out = append(out, indFact{phi.add(b, -1).add(linConst(slack), 1), "induction: " + name + " ≥ lower bound at the header"})
 			}
 		}
 	}
@@ -585,7 +590,7 @@ func checkC17(ctx *Ctx) *Result {
 	r.rule("R19.1", "cfgerrors.All: no yield after yield returned false (range-over-func would panic)", 2)
 	r.rule("R1.4", "parallel slices of the tree's nodes have equal length (invariant used by the bounds proofs)", 4)
 	r.rule("R17.e", "the subdomains kind is only assigned under HasPrefix(`*.`); hostOnly drops exactly those two bytes", 1)
-	parallelSlices(ctx, r, "R1.4")
+	parallelSlicesMode(ctx, r, "R1.4", true)
 	kindPrefixRule(ctx, r, "R17.e")
 	p := ctx.P
 	we := ctx.WE()
